@@ -46,6 +46,49 @@ type Env struct {
 	Ctx      context.Context
 	// passOwner caches the owner a pass belongs to
 	stepNo int
+	// armed faults / interposed adversary actions, consumed by onRequestStart
+	armed  []*Armed
+	inHook bool
+}
+
+// Armed is a one-shot reaction to a future request of a controller pass.
+type Armed struct {
+	Desc  string
+	Match func(req *simkube.Request) bool
+	// Fault to inject (FaultNone = none) and its error
+	Fault simkube.FaultKind
+	Err   error
+	// Before runs right before the request executes (no store lock held): an actor scheduled at API-call granularity.
+	Before func(req *simkube.Request)
+	Fired  bool
+}
+
+// Arm registers a one-shot reaction.
+func (e *Env) Arm(a *Armed) {
+	e.armed = append(e.armed, a)
+	e.Logf("armed: %s", a.Desc)
+}
+
+func (e *Env) onRequestStart(req *simkube.Request) (simkube.FaultKind, error) {
+	if e.inHook || req.Pass == nil {
+		return simkube.FaultNone, nil
+	}
+	for i, a := range e.armed {
+		if a.Fired || !a.Match(req) {
+			continue
+		}
+		a.Fired = true
+		e.armed = append(e.armed[:i], e.armed[i+1:]...)
+		e.Logf("fired: %s at %s %s %s/%s of pass %s %s", a.Desc, req.Verb, req.GVK.Kind, req.Key.Namespace, req.Key.Name, req.Pass.Actor, req.Pass.Key)
+		e.Count("armed_fired")
+		if a.Before != nil {
+			e.inHook = true
+			a.Before(req)
+			e.inHook = false
+		}
+		return a.Fault, a.Err
+	}
+	return simkube.FaultNone, nil
 }
 
 func NewEnv(r *rand.Rand, o driver.Options, monitors ...Monitor) (*Env, error) {
@@ -60,8 +103,10 @@ func NewEnv(r *rand.Rand, o driver.Options, monitors ...Monitor) (*Env, error) {
 		}
 	}
 	w.Store.Subscribe(hook)
+	w.Store.Fault = e.onRequestStart
 	if w.Target != w.Store {
 		w.Target.Subscribe(hook)
+		w.Target.Fault = e.onRequestStart
 	}
 	return e, nil
 }
